@@ -299,3 +299,24 @@ proof! {
         cover!(true);
     }
 }
+
+proof! {
+    //@ props=C10 tier=quick bounds=history:offer-x,offer-x-again,then-register-y:y-gets-number-2(numbers-count-distinct-objects,not-offers);observed-through-the-object-table cap=900
+    fn c10_numbering_counts_distinct_objects() unwind(6) {
+        use desert_core::serializer::StoreRefResult;
+        let x: &'static u8 = Box::leak(Box::new(1u8));
+        let y: &'static u8 = Box::leak(Box::new(2u8));
+        let mut ctx = SerializationContext::new(Vec::new());
+        match ctx.store_ref_or_object(x) { Ok(is_new) => assert!(is_new, "first offer not reported as new"), Err(e) => { std::mem::forget(e); assert!(false); } }
+        match ctx.store_ref_or_object(x) { Ok(is_new) => assert!(!is_new, "repeated offer reported as new"), Err(e) => { std::mem::forget(e); assert!(false); } }
+        match ctx.state_mut().store_ref(y) {
+            StoreRefResult::RefIsNew { new_id, .. } => assert!(new_id.0 == 2, "object numbers must count distinct objects, not offers"),
+            StoreRefResult::RefAlreadyStored { .. } => assert!(false, "a distinct object was taken for a known one"),
+        }
+        let out = ctx.into_output();
+        // new marker, then the 1-based number of x
+        assert!(out.len() == 2 && out[0] == 0 && out[1] == 1);
+        cover!(true);
+        std::mem::forget(out);
+    }
+}
